@@ -81,6 +81,8 @@ package procbuilder
 //@   loop 3: modifies result.Vars[*]
 //@   loop 3: invariant forall k int :: 0 <= k && k < $i ==> result.Vars[k] == machj.Vars[k]
 //@   loop 4: modifies result.Op[*], Allopcodes, spare(Allopcodes)
+// (invariant "current": each opcode name is looked up in the registry as it is right after its own
+// EventuallyCreateInstruction call - a dynamic opcode created by that call is found, not dropped)
 //@   loop 4: invariant grow: len(Allopcodes) >= old(len(Allopcodes)) && (forall k int :: 0 <= k && k < old(len(Allopcodes)) ==> Allopcodes[k] == old(Allopcodes[k])) &&
 //@             (forall k int :: 0 <= k && k < len(Allopcodes) ==> Allopcodes[k] != nil)
 //@   loop 4: invariant sep: arr(result.Op) != arr(Allopcodes) && len(result.Op) == len(machj.Op)
@@ -91,6 +93,7 @@ package procbuilder
 //@   loop 4: invariant member: forall j int :: 0 <= j && j < $i && result.Op[j] != nil ==> (exists k int :: 0 <= k && k < len(Allopcodes) && Allopcodes[k] == result.Op[j])
 //@   loop 4: invariant stable: (forall j int :: 0 <= j && j < $i ==> (exists k int :: 0 <= k && k < old(len(Allopcodes)) && old(Allopcodes[k]).Op_get_name() == machj.Op[j])) ==>
 //@             len(Allopcodes) == old(len(Allopcodes))
+//@   loop 4: invariant current: $i > 0 ==> (forall k int :: 0 <= k && k < len(Allopcodes) && Allopcodes[k].Op_get_name() == machj.Op[$i - 1] ==> result.Op[$i - 1] != nil)
 //@   loop 5: invariant member: result.Op[i] != nil ==> (exists q int :: 0 <= q && q < $i && Allopcodes[q] == result.Op[i])
 //@   loop 5: modifies result.Op[i]
 //@   loop 5: invariant named: result.Op[i] != nil ==> result.Op[i].Op_get_name() == opname
